@@ -42,6 +42,7 @@ Fixpoint upto (m : nat) : list nat := match m with O => [O] | S k => upto k ++ [
 
 Definition dispatch_model (name : Z) (s : sx) : sx :=
   match name with
+  | 41 => AllRun.run_calls s        (* C17: the tracker calls the engine model makes in one event (+ the TrackerInc invariant on the snapshot) *)
   | 40 => AllRun2.run_jrn2_real s  (* C03 on stage 2: journey invariant on a snapshot + the real cumulative records + arrival nodes *)
   | 39 => Knot.run_deadlockedb s   (* C18: does a (stage-1) snapshot contain a knot, and does it satisfy the hypotheses of deadlock_is_permanent? *)
   | 38 => AllRun2.run_invs2 s     (* every executable T2 invariant of the stage-2 engine on one snapshot *)
